@@ -75,25 +75,30 @@ Fixpoint fields_lines (pkg parent : bytes) (in_oneof : bool) (i : N) (l : list o
    in the descriptor) the inline enums *)
 Definition entry_lines (pkg parent : bytes) (file : N) (fs : list ofield) : list line :=
   flat_map (fun f =>
-    match f_type f, f_inline f with
-    | TMap v, _ =>
-        let '(pt, tn, kind) := type_cols pkg parent f v in
-        [ (1, [parent ++ [46] ++ map_name (to_snake (f_json f)); []], [file; 0; 0]);
-          (2, [bs "key"; []; []; []; []; []; []; []], [1; 9; 0; 0; 0; 0; 0; 0; 0; 0; 0]);
-          (2, [bs "value"; []; tn; kind; []; []; []; keyfmt_name (f_keyfmt f)], [2; pt; 0; 0; 0; 0; 0; 0; 0; 0; 0]) ]
-    | TNested n k, Some il =>
+    (* the message of an inline object / oneof (also as the item of an array / the value of a map) ... *)
+    match inline_of f with
+    | Some (n, k, il) =>
         if k =? 2 then []
         else (1, [parent ++ [46] ++ n; []], [file; 0; b2n (k =? 1)])
              :: fields_lines pkg (parent ++ [46] ++ n) (k =? 1) 1 (map of_sfield (il_fields il))
-    | _, _ => []
-    end) fs
+    | None => []
+    end
+    (* ... then the entry message of a map field *)
+    ++ match f_type f with
+       | TMap v =>
+           let '(pt, tn, kind) := type_cols pkg parent f v in
+           [ (1, [parent ++ [46] ++ map_name (to_snake (f_json f)); []], [file; 0; 0]);
+             (2, [bs "key"; []; []; []; []; []; []; []], [1; 9; 0; 0; 0; 0; 0; 0; 0; 0; 0]);
+             (2, [bs "value"; []; tn; kind; []; []; []; keyfmt_name (f_keyfmt f)], [2; pt; 0; 0; 0; 0; 0; 0; 0; 0; 0]) ]
+       | _ => []
+       end) fs
   ++ flat_map (fun f =>
-    match f_type f, f_inline f with
-    | TNested n k, Some il =>
+    match inline_of f with
+    | Some (n, k, il) =>
         if k =? 2 then (4, [parent ++ [46] ++ n], [])
                        :: map (fun v => (5, [fst v], [snd v])) (status_values (to_screaming_snake n ++ [95]) (il_options il))
         else []
-    | _, _ => []
+    | None => []
     end) fs.
 
 (* 1: message — [full name; psm entity] [file; psm part; is oneof] *)
